@@ -468,7 +468,7 @@ fn gen_template(rng: &mut Rng, density: f64) -> JobSpec {
     let k = rng.range(2, 5) as usize;
     let names = pick_names(rng, k);
     let y = |rng: &mut Rng| yields(rng, density);
-    let which = rng.below(10);
+    let which = rng.below(11);
     let text: String = match which {
         0 => {
             // keywords() of an argument list
@@ -549,6 +549,12 @@ fn gen_template(rng: &mut Rng, density: f64) -> JobSpec {
             rng.shuffle(&mut ord);
             let args: Vec<String> = ord.iter().take(2).map(|&i| format!("${}: {}", names[i], 10 * (i + 1))).collect();
             format!("@mixin m({}) {{ {} }}\n{}a {{ @include m({}); }}\n", params.join(", "), body.join(" "), y(rng), args.join(", "))
+        }
+        9 => {
+            // numbers with unknown (user-named) units: their names live in the interner, and
+            // compound units are rendered by multiplying / dividing them
+            let u: Vec<String> = names.iter().map(|n| n.replace('_', "-")).collect();
+            format!("{}a {{ m: unit(1{} * 1{}); d: inspect(1{} * 1{} / 1{}); s: \"#{{unit(2{} * 3{})}}\"; }}\n", y(rng), u[0], u[1], u[0], u[1], u[u.len() - 1], u[1], u[0])
         }
         _ => {
             // global variables and functions listed by meta
@@ -959,7 +965,7 @@ impl Engine for SchedEngine {
         out.into_iter().map(|d| d.to_json()).collect()
     }
     fn rule(&self) -> String {
-        "seeded runs of 1-4 simulated threads x 1-6 jobs each (jobs: suite inputs, order-sensitive templates over a shared identifier pool [keywords(), unknown named arguments, named-argument evaluation order, maps, module members through @forward show/hide, @extend, @use-with, selector functions, mixin defaults], multi-file projects on SimFs, logger scripts; 40% of runs let threads draw from a shared job pool); per run a scheduling policy (serial, random(0.02/0.2/0.5), pct(1/3), latency), per-thread hash key (15% equal to the reference key), heap shift, sim-yield density, H1 on/off; some history jobs fail, are Fs-faulted, or run out of evaluation fuel mid-evaluation (caught panic). 6% of runs are unique-id() runs under adversarial entropy. Every run executes in a process forked for it alone on a deterministic heap. Non-trivial = runs with a context switch inside a compilation or a thread with more than one job; distinct by (case, switch list).".into()
+        "seeded runs of 1-4 simulated threads x 1-6 jobs each (jobs: suite inputs, order-sensitive templates over a shared identifier pool [keywords(), unknown named arguments, named-argument evaluation order, maps, module members through @forward show/hide, @extend, @use-with, selector functions, mixin defaults, compound units with user-named units], multi-file projects on SimFs, logger scripts; 40% of runs let threads draw from a shared job pool); per run a scheduling policy (serial, random(0.02/0.2/0.5), pct(1/3), latency), per-thread hash key (15% equal to the reference key), heap shift, sim-yield density, H1 on/off; some history jobs fail, are Fs-faulted, or run out of evaluation fuel mid-evaluation (caught panic). 6% of runs are unique-id() runs under adversarial entropy. Every run executes in a process forked for it alone on a deterministic heap. Non-trivial = runs with a context switch inside a compilation or a thread with more than one job; distinct by (case, switch list).".into()
     }
     fn assumptions(&self) -> Vec<String> {
         vec![
